@@ -541,7 +541,29 @@ theorem step_inv {s s' : GState R O} (l : Label R O) (hi : Inv s) (h : step .non
       simp only [hw] at h
       by_cases hpc : w.pc = .queued
       · simp only [hpc, if_true, Option.some.injEq] at h
-        have hi' := inv_setPc (ro := (r, o)) (w := w) (pc := .idle) hi hw (fun _ h2 => absurd rfl h2) (fun _ => Or.inr (Or.inr (Or.inr rfl)))
+        have hi' := inv_setPc
+          (s := { s with objTog := if w.hasToggle then sdel (r, o) s.objTog else s.objTog,
+                         indexedOnce := sadd (r, o) s.indexedOnce })
+          (ro := (r, o)) (w := w) (pc := .idle)
+          ⟨hi.c0, hi.c1, hi.c1', hi.c2,
+           (fun ro hro hni => by
+              have hni' : ro ∉ sadd (r, o) s.indexedOnce := hni
+              rw [mem_sadd, not_or] at hni'
+              rcases hi.c3 ro hro hni'.2 with this | this
+              · left
+                show ro ∈ (if w.hasToggle = true then sdel (r, o) s.objTog else s.objTog)
+                by_cases ht : w.hasToggle = true
+                · simp [ht, mem_sdel, this, hni'.1]
+                · simp [ht, this]
+              · exact Or.inr this),
+           hi.c4, hi.c4',
+           (fun ro w' hw' hpc' hpc2 => by
+              show ro ∈ sadd (r, o) s.indexedOnce
+              rw [mem_sadd]; exact Or.inr (hi.c5 ro w' hw' hpc' hpc2)),
+           hi.c6, hi.c8, hi.a,
+           (fun he => ready1_mono (hi.b he) rfl (fun _ h => h) (fun _ h _ => h)
+              (fun ro h => by show ro ∈ sadd (r, o) s.indexedOnce; rw [mem_sadd]; exact Or.inr h))⟩
+          hw (fun _ h2 => absurd rfl h2) (fun _ => Or.inr (Or.inr (Or.inr rfl)))
         subst h
         exact hi'
       · simp [hpc] at h
